@@ -12,9 +12,46 @@ import (
 
 type (
 	Locker = rs.Locker
-	Pool   = rs.Pool
 	Map    = rs.Map
 )
+
+// Pool is a deterministic stand-in for sync.Pool: a LIFO free list that the
+// garbage collector never empties (a legal behaviour of the real Pool, whose
+// retention is unspecified), so that code using a Pool replays exactly.
+type Pool struct {
+	New   func() interface{}
+	mu    rs.Mutex
+	items []interface{}
+}
+
+//go:norace
+func (p *Pool) Get() interface{} {
+	simrt.Yield(simrt.OpLoad, unsafe.Pointer(p))
+	p.mu.Lock()
+	var x interface{}
+	if n := len(p.items); n > 0 {
+		x = p.items[n-1]
+		p.items[n-1] = nil
+		p.items = p.items[:n-1]
+	}
+	p.mu.Unlock()
+	if x == nil && p.New != nil {
+		x = p.New()
+	}
+	return x
+}
+
+//go:norace
+func (p *Pool) Put(x interface{}) {
+	if x == nil {
+		return
+	}
+	simrt.Yield(simrt.OpStore, unsafe.Pointer(p))
+	p.mu.Lock()
+	p.items = append(p.items, x)
+	p.mu.Unlock()
+	simrt.NoteWrite()
+}
 
 // Mutex must stay 8 bytes (bucketOf pads to a cache line around it).
 type Mutex struct{ mu rs.Mutex }
